@@ -417,6 +417,7 @@ def run_case(case, want_labels=False):
     info = {"crashed": {n: type(t.exc).__name__ for n, t in s.threads.items() if t.exc is not None},
             "pending": {n: t.label for n, t in s.threads.items() if not t.done},
             "in_q": len(dev._Device__in_messages.items()),
+            "queue_bounds": queue_bounds(dev, conn),
             "emitted": dev.emitted, "spans": spans, "returned_at": returned_at, "sent": sent,
             "delivered_at": conn.delivered_at if conn else [], "wire_left": len(dev.wire), "spont_left": len(spont),
             "labelset": sorted({canon_label(t, l) for (t, l, k) in s.trace if k == "run"})}
@@ -428,6 +429,16 @@ def run_case(case, want_labels=False):
 
 
 OUTQ = [None]
+
+
+def queue_bounds(dev, conn):
+    """maxsize of every queue the model takes as unbounded (0 = unbounded)."""
+    b = {"device.in": dev._Device__in_messages.maxsize, "device.out": dev._Device__out_messages.maxsize}
+    if conn is not None:
+        b.update({"connector.events": conn._Connector__events.maxsize,
+                  "connector.locked_pdus": conn._Connector__locked_pdus.maxsize,
+                  "connector.sync_events": conn._Connector__sync_events.maxsize})
+    return b
 QNAMES = {}
 
 
